@@ -4,6 +4,7 @@ set -e
 cd "$(dirname "$0")"
 export CARGO_NET_OFFLINE=true
 python3 tools/gen_circuits.py
+python3 tools/gen_registry.py
 cp /repo/Cargo.lock harness/Cargo.lock
 cp /repo/rust-toolchain.toml harness/rust-toolchain.toml
 (cd harness && cargo build --release --offline 2>&1 | tail -3)
